@@ -258,64 +258,86 @@ Definition reps_of (l : link) (reps : list nat) : Prop :=
   (forall a b, In a reps -> In b reps -> conn l a b -> a = b) /\
   (forall e, In e (edge_labels l) -> exists r, In r reps /\ conn l r e).
 
+Lemma NoDup_app_inv' : forall A (a b : list A), NoDup (a ++ b) ->
+  NoDup a /\ NoDup b /\ (forall x, In x a -> In x b -> False).
+Proof.
+  induction a as [|x a IH]; intros b H; cbn in *.
+  - split; [constructor|]. split; auto.
+  - inversion H; subst. destruct (IH b H3) as (A1 & A2 & A3). split; [|split; auto].
+    + constructor; auto. intros Hx. apply H2. apply in_app_iff; auto.
+    + intros y [<-|Hy] Hb; [apply H2; apply in_app_iff; auto|eapply A3; eauto].
+Qed.
+
+Lemma concat_NoDup_facts : forall (ls : list (list nat)),
+  NoDup (concat ls) -> (forall x, In x ls -> x <> []) ->
+  NoDup ls /\ (forall x y e, In x ls -> In y ls -> In e x -> In e y -> x = y).
+Proof.
+  induction ls as [|a ls IH]; intros ND NE; cbn [concat] in *.
+  - split; [constructor|intros x y e []].
+  - apply NoDup_app_inv' in ND. destruct ND as (Na & Nc & Dj).
+    destruct (IH Nc ltac:(intros; apply NE; cbn; auto)) as [N U].
+    assert (Hd : forall y e, In y ls -> In e a -> In e y -> False).
+    { intros y e Hy Ha Hey. apply (Dj e Ha). apply in_concat. eauto. }
+    split.
+    + constructor; auto. intros Ha. destruct a as [|e a'] eqn:Ea; [apply (NE []); cbn; auto|].
+      apply (Hd (e :: a') e); cbn; auto.
+    + intros x y e [<-|Hx] [<-|Hy] Hex Hey; auto.
+      * exfalso. eapply Hd; eauto.
+      * exfalso. eapply Hd; eauto.
+      * eapply U; eauto.
+Qed.
+
+(* two duplicate-free lists related by a relation that is total, onto and one-to-one both ways *)
+Lemma bijection_length : forall A B (R : A -> B -> Prop) (la : list A) (lb : list B),
+  NoDup la -> NoDup lb ->
+  (forall a, In a la -> exists b, In b lb /\ R a b) ->
+  (forall b, In b lb -> exists a, In a la /\ R a b) ->
+  (forall a a' b, In a la -> In a' la -> In b lb -> R a b -> R a' b -> a = a') ->
+  (forall a b b', In a la -> In b lb -> In b' lb -> R a b -> R a b' -> b = b') ->
+  length la = length lb.
+Proof.
+  intros A B R. induction la as [|a la IH]; intros lb Na Nb Tot Onto InjA InjB.
+  - destruct lb as [|b lb]; auto. destruct (Onto b ltac:(cbn; auto)) as [a [[] _]].
+  - destruct (Tot a ltac:(cbn; auto)) as [b [Hb Rab]].
+    apply in_split in Hb. destruct Hb as [l1 [l2 ->]].
+    rewrite app_length. cbn [length]. rewrite Nat.add_succ_r, <- app_length. f_equal.
+    inversion Na; subst.
+    assert (Nb' := NoDup_remove_1 _ _ _ Nb). assert (Nb2 := NoDup_remove_2 _ _ _ Nb).
+    assert (Hin : forall x, In x (l1 ++ l2) -> In x (l1 ++ b :: l2)).
+    { intros x Hx. apply in_app_iff in Hx. apply in_app_iff. cbn. tauto. }
+    assert (Hbin : In b (l1 ++ b :: l2)) by (apply in_app_iff; cbn; auto).
+    apply IH; auto.
+    + intros a' Ha'. destruct (Tot a' ltac:(cbn; auto)) as [b' [Hb' Rab']].
+      exists b'. split; auto. apply in_app_iff in Hb'. cbn in Hb'. apply in_app_iff.
+      destruct Hb' as [X|[<-|X]]; auto.
+      exfalso. assert (a = a') by (apply (InjA a a' b); cbn; auto). subst. contradiction.
+    + intros b' Hb'. destruct (Onto b' (Hin _ Hb')) as [a' [[<-|Ha'] Rab']]; eauto.
+      exfalso. assert (b = b') by (apply (InjB a b b'); cbn; auto). subst. contradiction.
+    + intros x x' y Hx Hx' Hy. apply InjA; cbn; auto.
+    + intros x y y' Hx Hy Hy'. apply InjB; cbn; auto.
+Qed.
+
 Theorem components_count : forall l, Valid l -> forall cs, components l = Some cs ->
   forall reps, reps_of l reps -> length cs = length reps.
 Proof.
   intros l Hv cs E reps (RN & RI & RU & RC).
   destruct (components_valid l Hv) as (cs' & E' & F & ND & Cov & Cl).
   rewrite E in E'. inversion E'; subst cs'; clear E'.
-  (* heads of the components: a second system of representatives *)
-  set (heads := map (fun c => hd 0 (pedges c)) cs).
-  assert (Hhd : forall c, In c cs -> In (hd 0 (pedges c)) (pedges c)).
-  { intros c Hc. rewrite Forall_forall in F. destruct (F c Hc) as (_ & Hne & _).
-    destruct (pedges c); [contradiction|cbn; auto]. }
-  assert (Hcomp_eq : forall c c' e, In c cs -> In c' cs -> In e (pedges c) -> In e (pedges c') -> c = c').
-  { clear -ND. induction cs as [|a cs IH]; intros c c' e Hc Hc' He He'; [contradiction|].
-    cbn [map concat] in ND. apply NoDup_app_remove_l in ND as ND'.
-    destruct Hc as [<-|Hc], Hc' as [<-|Hc']; auto.
-    - exfalso. clear IH ND'. revert ND. generalize (concat (map pedges cs)) (in_concat (map pedges cs) e).
-      intros R HR ND. assert (In e R) by (apply HR; exists (pedges c'); split; auto; apply in_map; auto).
-      clear -ND He H. induction (pedges a) as [|x xs IH]; [contradiction|]. cbn in ND. inversion ND; subst.
-      destruct He as [<-|He]; auto. apply H2. apply in_app_iff; auto.
-    - exfalso. clear IH ND'. revert ND. generalize (concat (map pedges cs)) (in_concat (map pedges cs) e).
-      intros R HR ND. assert (In e R) by (apply HR; exists (pedges c); split; auto; apply in_map; auto).
-      clear -ND He' H. induction (pedges a) as [|x xs IH]; [contradiction|]. cbn in ND. inversion ND; subst.
-      destruct He' as [<-|He']; auto. apply H2. apply in_app_iff; auto.
-    - eapply IH; eauto. }
-  assert (HN : NoDup heads).
-  { unfold heads. apply NoDup_map_local.
-    - intros a b Ha Hb Eab. apply (Hcomp_eq a b (hd 0 (pedges a))); auto. rewrite Eab. auto.
-    - clear -ND F. induction cs as [|a cs IH]; [constructor|]. inversion F; subst.
-      cbn [map concat] in ND. constructor.
-      + intros Ha. destruct H1 as (_ & Hne & _).
-        destruct (pedges a) as [|x xs] eqn:Ex; [contradiction|]. cbn in ND. inversion ND; subst.
-        apply H3. apply in_app_iff. right. apply in_concat. exists (pedges a). split; [apply in_map; auto|].
-        rewrite Ex. cbn; auto.
-      + apply IH; auto. eapply NoDup_app_remove_l; eauto. }
-  unfold heads in HN.
-  (* f : rep -> the head of its component ; g : head -> its representative *)
-  assert (Hf : forall r, In r reps -> exists c, In c cs /\ In r (pedges c)).
-  { intros r Hr. apply RI, Cov, in_concat in Hr. destruct Hr as [es [Hes Hr]].
-    apply in_map_iff in Hes. destruct Hes as [c [<- Hc]]. eauto. }
-  apply Nat.le_antisymm.
-  - (* each component contains a representative; distinct components give distinct representatives *)
-    assert (Hg : forall c, In c cs -> exists r, In r reps /\ In r (pedges c)).
-    { intros c Hc. destruct (RC (hd 0 (pedges c))) as [r [Hr Hcn]].
-      { apply Cov, in_concat. exists (pedges c). split; [apply in_map|]; auto. }
-      exists r. split; auto. apply (Cl c Hc _ (Hhd c Hc)). apply conn_sym; auto. }
-    clear -Hg Hcomp_eq RN. revert reps RN Hg. induction cs as [|a cs IH]; intros reps RN Hg; [cbn; lia|].
-    destruct (Hg a ltac:(cbn; auto)) as [r [Hr Hra]].
-    apply in_split in Hr. destruct Hr as [r1 [r2 ->]].
-    rewrite app_length. cbn [length]. rewrite Nat.add_succ_r, <- app_length. apply le_n_S.
-    apply IH.
-    + intros c c' e Hc Hc'. apply Hcomp_eq; cbn; auto.
-    + eapply NoDup_remove_1; eauto.
-    + intros c Hc. destruct (Hg c ltac:(cbn; auto)) as [r' [Hr' Hrc]].
-      exists r'. split; auto. apply in_app_iff. apply in_app_iff in Hr'. cbn in Hr'.
-      destruct Hr' as [A|[<-|A]]; auto.
-      exfalso. assert (a = c) by (eapply Hcomp_eq; cbn; eauto). subst c.
-      clear -Hc Hcomp_eq Hra HN. 
-      (* a occurs twice in (a :: cs): fine for Hcomp_eq, so use NoDup of cs instead *)
-      admit_placeholder.
-  - admit_placeholder.
+  rewrite Forall_forall in F.
+  assert (NE : forall x, In x (map pedges cs) -> x <> []).
+  { intros x Hx. apply in_map_iff in Hx. destruct Hx as [c [<- Hc]]. apply (F c Hc). }
+  destruct (concat_NoDup_facts _ ND NE) as [NL UL].
+  rewrite <- (map_length pedges cs).
+  apply (bijection_length _ _ (fun es r => In r es)); auto.
+  - intros es Hes. apply in_map_iff in Hes. destruct Hes as [c [<- Hc]].
+    destruct (F c Hc) as (_ & Hne & _).
+    destruct (pedges c) as [|e0 es'] eqn:Ec; [contradiction|].
+    destruct (RC e0) as [r [Hr Hcn]].
+    { apply Cov, in_concat. exists (pedges c). split; [apply in_map; auto|]. rewrite Ec. cbn; auto. }
+    exists r. split; auto. rewrite <- Ec. apply (Cl c Hc e0); [rewrite Ec; cbn; auto|].
+    apply conn_sym; auto.
+  - intros r Hr. apply RI, Cov, in_concat in Hr. destruct Hr as [es [Hes Hr]]. eauto.
+  - intros es es' r Hes Hes' _ H1 H2. eapply UL; eauto.
+  - intros es r r' Hes Hr Hr' H1 H2. apply in_map_iff in Hes. destruct Hes as [c [<- Hc]].
+    apply RU; auto. apply (Cl c Hc r H1). auto.
 Qed.
